@@ -10,6 +10,9 @@
      fn <tree> ; (<bits16> <texthex>)* ; (<bits16> <texthex>)*   notation of a tree, repr(float)/datestr tables -> hex
      u8 <hex>                   strict UTF-8?                    -> 0 | 1
      wf <tree>                  wf, bin_ok, keys_uris_nl_free    -> three 0/1 digits
+     pn <hex> ; (<texthex> <bits16>)* ; (<texthex> <bits16>)*   LLSDNotationParser.parse with float()/_parse_datestr tables
+                                                                 -> OK <restlen> <tree> | ERR (parse error or outside the model)
+     sr <hex>                   bytes _real_regex matches        -> OK <hex> <restlen> | ERR
      mp <TYPE> <mval>           LLSDMessageSerializer.serialize, one variable  -> <conforms> OK <tree> | <conforms> ERR
      mu <TYPE> <tree>           ... deserialize, one variable                   -> OK <mval> | ERR
    mval syntax:  VI <int> | VR <hex16> | VV <n> <hex16>*n | VQ <x> <y> <z> | VG <hex> | VA <hex> | VB <hex> | VS <hex> | VT | VF *)
@@ -49,12 +52,24 @@ let hex_of_n (x:n) : string =
   let pad = max 0 (16 - String.length s) in
   String.make pad '0' ^ s
 
+(* decimal <-> Z of any size (notation integers are unbounded) *)
+let z_of_dec (s:string) : z =
+  let neg = String.length s > 0 && s.[0] = '-' in
+  let acc = ref N0 in
+  String.iter (fun c -> if c <> '-' && c <> '+' then acc := N.add (N.mul !acc (n_of_int 10)) (n_of_int (Char.code c - 48))) s;
+  match !acc with N0 -> Z0 | Npos p -> if neg then Zneg p else Zpos p
+let rec dec_of_n (x:n) : string = match x with
+  | N0 -> ""
+  | _ -> dec_of_n (N.div x (n_of_int 10)) ^ string_of_int (int_of_n (N.modulo x (n_of_int 10)))
+let dec_of_z (x:z) : string = match x with
+  | Z0 -> "0" | Zpos p -> dec_of_n (Npos p) | Zneg p -> "-" ^ dec_of_n (Npos p)
+
 let rec rd_tree (ws:string list) : llsd * string list =
   match ws with
   | "U" :: r -> (Undef, r)
   | "T" :: r -> (Bool true, r)
   | "F" :: r -> (Bool false, r)
-  | "I" :: i :: r -> (Int (z_of_int (int_of_string i)), r)
+  | "I" :: i :: r -> (Int (z_of_dec i), r)
   | "R" :: h :: r -> (Real (n_of_hex h), r)
   | "S" :: h :: r -> (Str (bytes_of_hex h), r)
   | "G" :: h :: r -> (Uuid (bytes_of_hex h), r)
@@ -79,7 +94,7 @@ let rec pr_tree (b:Buffer.t) (v:llsd) : unit =
   | Undef -> add "U"
   | Bool true -> add "T"
   | Bool false -> add "F"
-  | Int z -> add "I"; add (string_of_int (int_of_z z))
+  | Int z -> add "I"; add (dec_of_z z)
   | Real x -> add "R"; add (hex_of_n x)
   | Str s -> add "S"; add (hex_of_bytes s)
   | Uuid s -> add "G"; add (hex_of_bytes s)
@@ -112,21 +127,6 @@ let mvt_of_string = function
   | "MVT_LLVector3d" -> MVT_LLVector3d | "MVT_LLVector4" -> MVT_LLVector4 | "MVT_LLQuaternion" -> MVT_LLQuaternion
   | "MVT_LLUUID" -> MVT_LLUUID | "MVT_BOOL" -> MVT_BOOL | "MVT_IP_ADDR" -> MVT_IP_ADDR | "MVT_IP_PORT" -> MVT_IP_PORT
   | _ -> failwith "mvt"
-
-(* Z from a decimal string of any size *)
-let z_of_dec (s:string) : z =
-  let neg = String.length s > 0 && s.[0] = '-' in
-  let acc = ref N0 in
-  String.iter (fun c -> if c <> '-' then acc := N.add (N.mul !acc (n_of_int 10)) (n_of_int (Char.code c - 48))) s;
-  match !acc with N0 -> Z0 | Npos p -> if neg then Zneg p else Zpos p
-
-let rec dec_of_n (x:n) : string =
-  (* decimal via repeated division by 10 on the hex digits would be long; values here fit 2^64: use Int64 halves *)
-  let h = hex_of_n x in
-  let h = if String.length h > 16 then failwith "big" else h in
-  Printf.sprintf "%Lu" (Int64.of_string ("0x" ^ h))
-let dec_of_z (x:z) : string = match x with
-  | Z0 -> "0" | Zpos p -> dec_of_n (Npos p) | Zneg p -> "-" ^ dec_of_n (Npos p)
 
 let rd_mval (ws:string list) : mval = match ws with
   | "VI" :: i :: _ -> VInt (z_of_dec i)
@@ -184,6 +184,20 @@ let () =
              let look t x = try List.assoc (hex_of_n x) t with Not_found -> [n_of_int 63] in
              print_endline (hex_of_bytes (fmt_not (look rt) (look dt) v))
            | _ -> print_endline "?")
+        | "pn" :: ws ->
+          (match split_semi ws with
+           | [h] :: rw :: dw :: _ ->
+             let rec tab l = match l with t :: b :: r -> (String.lowercase_ascii t, n_of_hex b) :: tab r | _ -> [] in
+             let rt = tab rw and dt = tab dw in
+             let look t x = try Some (List.assoc (hex_of_bytes x) t) with Not_found -> None in
+             (match parse_not_rest (look rt) (look dt) (bytes_of_hex h) with
+              | Some (v, r) -> print_endline ("OK " ^ string_of_int (List.length r) ^ " " ^ tree_string v)
+              | None -> print_endline "ERR")
+           | _ -> print_endline "?")
+        | "sr" :: h :: _ ->
+          (match scan_real (bytes_of_hex h) with
+           | Some (t, r) -> print_endline ("OK " ^ hex_of_bytes t ^ " " ^ string_of_int (List.length r))
+           | None -> print_endline "ERR")
         | "u8" :: h :: _ -> print_endline (b01 (utf8_valid (bytes_of_hex h)))
         | "wf" :: ws ->
           let (v, _) = rd_tree ws in
